@@ -257,17 +257,19 @@ class Verifier(Engine):
                         lst = getattr(n, fld, None)
                         if isinstance(lst, list) and lst and isinstance(lst[0], ast.stmt):
                             hs = [stmt_header(x) for x in lst]
-                            if first in hs and last in hs[hs.index(first):]:
-                                i0 = hs.index(first)
-                                found.append(lst[i0:i0 + hs[i0:].index(last) + 1])
+                            m1 = [i_ for i_, h_ in enumerate(hs) if hdr_match(first, h_)]
+                            m2 = [i_ for i_, h_ in enumerate(hs) if m1 and i_ >= m1[0] and hdr_match(last, h_)]
+                            if m1 and m2:
+                                i0, i1 = m1[0], m2[0]
+                                found.append(lst[i0:i1 + 1])
                                 if c.opts.get("loop_body") and not (isinstance(n, (ast.For, ast.While, ast.AsyncFor)) and fld == "body"
-                                                                    and i0 + hs[i0:].index(last) + 1 == len(lst)):
+                                                                    and i1 + 1 == len(lst)):
                                     raise CheckerError("block contract with loop_body=True must end with the last statement of a loop body (%s)" % c.func)
                 if len(found) != 1:
                     raise CheckerError("block contract: %d statement ranges match %r in %s" % (len(found), c.opts["block"], c.func))
                 body = found[0]
             else:
-                found = [n for n in ast.walk(fsrc.node) if isinstance(n, ast.stmt) and stmt_header(n) == c.opts["block"]]
+                found = [n for n in ast.walk(fsrc.node) if isinstance(n, ast.stmt) and hdr_match(c.opts["block"], stmt_header(n))]
                 if len(found) != 1:
                     raise CheckerError("block contract: %d statements match %r in %s" % (len(found), c.opts["block"], c.func))
                 body = [found[0]]
@@ -383,9 +385,14 @@ class Verifier(Engine):
         post_st = St(post_env, st.heap, st.pc, ghost=dict(st.ghost, result=val))
         # ghost / locals are not visible in ensures; parameters keep their ENTRY values (Python rebinding of a
         # parameter inside the body does not change what the caller passed)
+        chain = []
         for text, f in self.spec_conj(c.ensures, post_st, entry, fx):
-            o = self.emit(fx, "post", line, st, f, note="ensures " + text)
+            # chain_ensures: the clauses are proved IN ORDER, each one may use the earlier ones (stepping stones for the solver;
+            # sound: a clause is only used after it has been proved at this very exit)
+            o = self.emit(fx, "post", line, st, f, note="ensures " + text, extra_pc=list(chain))
             o.result = val
+            if c.opts.get("chain_ensures"):
+                chain.append(f)
 
     def check_raise(self, fx, c, exc, st, entry):
         # an exception of a class that the table places under an unconditionally allowed class needs no solver
@@ -470,7 +477,7 @@ class Verifier(Engine):
             if c2 is c or c2.file != c.file or c2.func != c.func or not c2.opts.get("summary") or not c2.opts.get("block"):
                 continue
             hdr = hdr or stmt_header(s)
-            if c2.opts["block"] == hdr:
+            if isinstance(c2.opts["block"], str) and hdr_match(c2.opts["block"], hdr):
                 return c2
         return None
 
@@ -899,10 +906,13 @@ class Verifier(Engine):
             # declared loop frame: exactly the listed objects (expressions evaluated at loop entry) are arbitrary after any
             # number of iterations; CHECKED at every back edge (frame_goals): the body writes only to them or to new objects
             mobjs, mkeyed = self.parse_frame(sp_mod, st.env, st, fx, old=fx.entry)
+            alloc_at_loop_entry = st.heap.alloc
             self.apply_frame_havoc(st, mobjs, mkeyed)
             h = st.heap
             st.ghost = dict(st.ghost)
-            st.ghost["_loop_frame:%d" % node.lineno] = (dict(h.a), h.alloc, tuple(mobjs), tuple(mkeyed))
+            # objects allocated by EARLIER iterations (at or above the frontier the loop started with) may be written as well:
+            # seen from outside the loop they are new objects
+            st.ghost["_loop_frame:%d" % node.lineno] = (dict(h.a), alloc_at_loop_entry, tuple(mobjs), tuple(mkeyed))
         elif vm:
             if free_keys:
                 raise OutOfSubset("value mode: keyed write through a re-bound receiver inside a loop (line %d)" % node.lineno)
@@ -1274,6 +1284,14 @@ class Verifier(Engine):
         return res
 
     st_AsyncFor = None
+
+
+def hdr_match(pattern, header):
+    """a block is keyed by the text of its (first / last) statement; a key ending in `...` matches by prefix, so that a change INSIDE
+    the keyed statement still finds the block (and is judged by its contract) instead of orphaning the contract"""
+    if pattern.endswith("..."):
+        return header.startswith(pattern[:-3])
+    return header == pattern
 
 
 def _live(get):
